@@ -15,6 +15,7 @@ to residues `a*b % m`, absence of panics, and the end-to-end "finds what the bou
 `pp1_found`, `pp1_stage2_found_partial` below; glue: K stream).
 -/
 import Ymq.Lemmas.Pp1Impl
+import Ymq.Lemmas.Pp1ImplExample
 import Ymq.Props.C16
 
 namespace Ymq.C16
@@ -28,6 +29,9 @@ theorem pp1_proper {n seed b1 b2 : Nat} {pp : Nat → Bool} (hn : 0 < n) {fs : L
     (h : pp1 n seed b1 b2 pp = some (some (fs, rest))) :
     fs.prod * rest = n ∧ (∀ f ∈ fs, 1 < f) ∧ 0 < rest ∧ n ∉ fs ∧ fs ≠ [] :=
   pp1_proper' hn h fs rest rfl
+
+/-- non-vacuity: a complete run inside the logic (sieve, stage 1, first gcd check), `pp1(77, 5, 4, 4) = Some(([7], 11))` -/
+example : pp1 77 5 4 4 (fun _ => true) = some (some ([7], 11)) := ex_pp1
 
 /-- the same for the second stage alone, from any state satisfying the invariant of `check_gcd_factors` -/
 theorem pp1_stage2_proper {n : Nat} {pp : Nat → Bool} {m g d1 d2 : Nat} {factors : List Nat} {nred : Nat}
